@@ -258,5 +258,48 @@ PURE_OK_PREFIXES = (
 )
 
 
+def norm(path):
+    """Drops generic-argument segments (`::<T, A>`, `::<impl [T]>`) so table keys do not depend on how
+    rustc prints the generics of an impl."""
+    if path is None:
+        return None
+    out = []
+    depth = 0
+    i = 0
+    n = len(path)
+    while i < n:
+        ch = path[i]
+        if depth == 0 and path.startswith("::<", i):
+            depth = 1
+            i += 3
+            continue
+        if depth > 0:
+            if ch == "<":
+                depth += 1
+            elif ch == ">":
+                depth -= 1
+            i += 1
+            continue
+        out.append(ch)
+        i += 1
+    return "".join(out)
+
+
+def _norm_keys(d):
+    return dict((norm(k), v) for k, v in d.items())
+
+
+FS = _norm_keys(FS)
+OPEN_BUILDERS = _norm_keys(OPEN_BUILDERS)
+OPEN_NEW = set(norm(k) for k in OPEN_NEW)
+LOCK_ACQ = _norm_keys(LOCK_ACQ)
+BLOCKING_WAIT = set(norm(k) for k in BLOCKING_WAIT)
+CHAN_NONBLOCK = set(norm(k) for k in CHAN_NONBLOCK)
+LEAK = set(norm(k) for k in LEAK)
+MAY_PANIC = _norm_keys(MAY_PANIC)
+ALLOC_SIZED = _norm_keys(ALLOC_SIZED)
+PURE_OK_PREFIXES = tuple(norm(k) for k in PURE_OK_PREFIXES)
+
+
 def fs_effect(path):
-    return FS.get(path)
+    return FS.get(norm(path))
